@@ -1767,6 +1767,8 @@ fn escape_scalar_string(value: &[u8], start: usize, end: usize, json: &mut Strin
             0x0A => "\\n",
             0x0D => "\\r",
             0x09 => "\\t",
+            // the other control characters have no short form and must not appear raw in JSON text
+            0x00..=0x1F => "\\u00",
             _ => {
                 continue;
             }
@@ -1776,6 +1778,11 @@ fn escape_scalar_string(value: &[u8], start: usize, end: usize, json: &mut Strin
             json.push_str(&val);
         }
         json.push_str(c);
+        if c.len() == 4 {
+            const HEX: &[u8; 16] = b"0123456789abcdef";
+            json.push(HEX[(value[i] >> 4) as usize] as char);
+            json.push(HEX[(value[i] & 0x0F) as usize] as char);
+        }
         last_start = i + 1;
     }
     if last_start < end {
